@@ -66,7 +66,7 @@ func c12K2Limit(thorough bool) int {
 	if thorough {
 		return 200
 	}
-	return 80
+	return 100
 }
 
 // entry points
